@@ -218,4 +218,127 @@ Proof.
   apply (pipeline_no_panic N fill_ok write_ok cap reqs). exact (proj1 Hg4).
 Qed.
 
+(* The same, and stronger: the continuation moves ONLY the two error multiplexers, the closer of the merged error
+   stream and the drain.  The request source, the generator workers, the packet multiplexers, the SENDER and the
+   receiver do not take a single step in it: the call comes back although the sender stays exactly where the
+   cancellation found it (asleep in the rate limiter, inside a blocking device write, blocked on its error
+   channel), and without the sender's done ever being closed. *)
+Theorem pipeline_errors_end_frozen n :
+  reachable beh n0 n -> cancelled n = true ->
+  exists n', reachable beh n n' /\ procs n' !! p_drain = Some (End RDrain) /\
+             (exists ch, chans n' !! c_eout N = Some ch /\ cclosed ch = true) /\
+             panicked n' = false /\
+             (forall j, j <> p_em N 0 -> j <> p_em N 1 -> j <> p_ecloser -> j <> p_drain ->
+                        procs n' !! j = procs n !! j).
+Proof.
+  intros Hr Hcan. assert (Hg : good n) by (split; assumption).
+  (* 1. both error multiplexers end *)
+  destruct (state_at n (p_em N 0) (REMux 0) Hr) as (l0 & Hl0 & Hr0 & Hp0).
+  { unfold p_em. replace (2 * N + 4 + 0) with (2 * N + 1 + 3) by lia. rewrite (layout_fixed 3) by lia. reflexivity. }
+  destruct (emux_can_end n 0 l0 Hg Hl0 Hr0 Hp0) as (n1 & Hran1 & He0 & Hch1).
+  assert (Hg1 : good n1) by (apply (rn_good _ _ _ Hran1); assumption).
+  destruct (state_at n1 (p_em N 1) (REMux 1) (proj1 Hg1)) as (l1 & Hl1 & Hr1 & Hp1).
+  { unfold p_em. replace (2 * N + 4 + 1) with (2 * N + 1 + 4) by lia. rewrite (layout_fixed 4) by lia. reflexivity. }
+  destruct (emux_can_end n1 1 l1 Hg1 Hl1 Hr1 Hp1) as (n2 & Hran2 & He1 & Hch2).
+  assert (Hg2 : good n2) by (apply (rn_good _ _ _ Hran2); assumption).
+  assert (He0' : procs n2 !! p_em N 0 = Some (End (REMux 0))).
+  { rewrite (rn_others _ _ _ Hran2) by (unfold p_em; lia). assumption. }
+  (* 2. the error closer waits for them and closes the merged stream *)
+  assert (Hclo : exists n3, reachable beh n2 n3 /\ good n3 /\
+             (forall j, j <> p_ecloser -> procs n3 !! j = procs n2 !! j) /\
+             (exists ch, chans n3 !! c_eout N = Some ch /\ cclosed ch = true)).
+  { destruct (state_at n2 p_ecloser RECloser (proj1 Hg2)) as (l & Hl & Hrl & Hpl).
+    { unfold p_ecloser. replace (2 * N + 6) with (2 * N + 1 + 5) by lia. rewrite (layout_fixed 5) by lia. reflexivity. }
+    assert (HfromC : forall a, good a -> procs a !! p_ecloser = Some ECClose ->
+              exists b, reachable beh a b /\ good b /\ (forall j, j <> p_ecloser -> procs b !! j = procs a !! j) /\
+                (exists ch, chans b !! c_eout N = Some ch /\ cclosed ch = true)).
+    { intros a Hga Ha.
+      destruct (chan_at a (c_eout N) (proj1 Hga) ltac:(unfold c_eout; lia)) as (ch & Hch).
+      pose proof (open_for_closer a p_ecloser _ _ _ ch (proj1 Hga) Ha eq_refl Hch) as Hopen.
+      assert (Hs : nstep beh a (set_chan (set_proc a p_ecloser (End RECloser)) (c_eout N) (Chan (cbuf ch) (ccap ch) true)))
+        by (eapply NClose; eauto).
+      eexists. split; [eapply RS; [apply R0|exact Hs]|]. split; [eapply good_step; eauto|]. split.
+      - intros j Hj. simpl. apply list_lookup_insert_ne. congruence.
+      - eexists. split; [simpl; apply list_lookup_insert; eapply lookup_lt_Some; eassumption|reflexivity]. }
+    destruct l; simpl in Hrl; try discriminate.
+    - assert (Hs : nstep beh n2 (set_proc n2 p_ecloser ECClose)).
+      { eapply NWait; eauto. unfold all_ended, emux_ids. rewrite Forall_forall. intros i Hi.
+        apply elem_of_cons in Hi. destruct Hi as [->|Hi]; [exists (End (REMux 0)); split; [assumption|reflexivity]|].
+        apply elem_of_list_singleton in Hi. subst. exists (End (REMux 1)). split; [assumption|reflexivity]. }
+      assert (Hga : good (set_proc n2 p_ecloser ECClose)) by (eapply good_step; eauto).
+      destruct (HfromC _ Hga) as (b & Hrb & Hgb & Hob & Hcb).
+      { simpl. apply list_lookup_insert. eapply lookup_lt_Some; eassumption. }
+      exists b. split; [eapply reachable_trans; [eapply RS; [apply R0|exact Hs]|exact Hrb]|].
+      split; [assumption|]. split; [|assumption].
+      intros j Hj. rewrite Hob by assumption. simpl. apply list_lookup_insert_ne. congruence.
+    - apply HfromC; assumption.
+    - simpl in Hpl. destruct Hpl.
+    - subst r. exists n2. split; [apply R0|]. split; [assumption|]. split; [auto|].
+      apply (did_reachable beh (has_closed N) n0 n2 (pipeline_did_beh N fill_ok write_ok) (init_did N reqs cap)
+               (proj1 Hg2) p_ecloser (End RECloser) (c_eout N) Hl). reflexivity. }
+  destruct Hclo as (n3 & Hr3 & Hg3 & Ho3 & Hcl3).
+  (* 3. the drain empties the closed stream and ends *)
+  assert (Hloop : forall k a, good a -> procs a !! p_drain = Some DIdle ->
+            (exists ch, chans a !! c_eout N = Some ch /\ cclosed ch = true /\ length (cbuf ch) = k) ->
+            exists b, reachable beh a b /\ good b /\ procs b !! p_drain = Some (End RDrain) /\
+              (exists ch, chans b !! c_eout N = Some ch /\ cclosed ch = true) /\
+              (forall j, j <> p_drain -> procs b !! j = procs a !! j)).
+  { induction k as [|k IHk]; intros a Hga Ha (ch & Hch & Hcl & Hlen).
+    - destruct (cbuf ch) eqn:Eb; [|discriminate].
+      assert (Hs : nstep beh a (set_proc a p_drain (End RDrain))).
+      { eapply (NRecvClosed beh a p_drain DIdle _ (c_eout N) (fun r => match r with RVal v => DEmit v | _ => End RDrain end));
+          eauto. alt_in. }
+      eexists. split; [eapply RS; [apply R0|exact Hs]|]. split; [eapply good_step; eauto|].
+      split; [simpl; apply list_lookup_insert; eapply lookup_lt_Some; eassumption|]. simpl. split; [eauto|].
+      intros j Hj. apply list_lookup_insert_ne. congruence.
+    - destruct (cbuf ch) as [|v rest] eqn:Eb; [discriminate|]. simpl in Hlen.
+      assert (Hs : nstep beh a (set_chan (set_proc a p_drain (DEmit v)) (c_eout N) (Chan rest (ccap ch) (cclosed ch)))).
+      { eapply (NRecv beh a p_drain DIdle _ (c_eout N) (fun r => match r with RVal v => DEmit v | _ => End RDrain end));
+          eauto. alt_in. }
+      set (a1 := set_chan _ _ _) in *.
+      assert (Hga1 : good a1) by (eapply good_step; eauto).
+      assert (Ha1 : procs a1 !! p_drain = Some (DEmit v))
+        by (simpl; apply list_lookup_insert; eapply lookup_lt_Some; eassumption).
+      assert (Hs2 : nstep beh a1 (Net (<[p_drain := DIdle]> (procs a1)) (chans a1) (cancelled a1) (log a1 ++ [EErrOut v]) (panicked a1))).
+      { eapply (NCall beh a1 p_drain (DEmit v) (fun _ => [EErrOut v]) (fun _ => DIdle) 0); eauto. }
+      set (a2 := Net _ _ _ _ _) in *.
+      assert (Hga2 : good a2) by (eapply good_step; eauto).
+      destruct (IHk a2 Hga2) as (b & Hrb & Hgb & Hpb & Hcb & Hob).
+      { simpl. apply list_lookup_insert. eapply lookup_lt_Some; eassumption. }
+      { exists (Chan rest (ccap ch) (cclosed ch)). split; [|simpl; split; [assumption|lia]].
+        simpl. apply list_lookup_insert. eapply lookup_lt_Some; eassumption. }
+      exists b. split; [eapply reachable_trans; [eapply RS; [eapply RS; [apply R0|exact Hs]|exact Hs2]|exact Hrb]|].
+      split; [assumption|]. split; [assumption|]. split; [assumption|].
+      intros j Hj. rewrite (Hob j Hj). unfold a2, a1. simpl. rewrite !list_lookup_insert_ne by congruence. reflexivity. }
+  destruct (state_at n3 p_drain RDrain (proj1 Hg3)) as (l & Hl & Hrl & Hpl).
+  { unfold p_drain. replace (2 * N + 7) with (2 * N + 1 + 6) by lia. rewrite (layout_fixed 6) by lia. reflexivity. }
+  destruct Hcl3 as (ch3 & Hch3 & Hclo3).
+  assert (Hfin : exists n4, reachable beh n3 n4 /\ good n4 /\ procs n4 !! p_drain = Some (End RDrain) /\
+            (exists ch, chans n4 !! c_eout N = Some ch /\ cclosed ch = true) /\
+            (forall j, j <> p_drain -> procs n4 !! j = procs n3 !! j)).
+  { destruct l; simpl in Hrl; try discriminate.
+    - eapply (Hloop (length (cbuf ch3))); eauto.
+    - assert (Hs2 : nstep beh n3 (Net (<[p_drain := DIdle]> (procs n3)) (chans n3) (cancelled n3) (log n3 ++ [EErrOut v]) (panicked n3))).
+      { eapply (NCall beh n3 p_drain (DEmit v) (fun _ => [EErrOut v]) (fun _ => DIdle) 0); eauto. }
+      set (a2 := Net _ _ _ _ _) in *.
+      assert (Hga2 : good a2) by (eapply good_step; eauto).
+      destruct (Hloop (length (cbuf ch3)) a2 Hga2) as (b & Hrb & Hgb & Hpb & Hcb & Hob).
+      { simpl. apply list_lookup_insert. eapply lookup_lt_Some; eassumption. }
+      { exists ch3. simpl. auto. }
+      exists b. split; [eapply reachable_trans; [eapply RS; [apply R0|exact Hs2]|exact Hrb]|].
+      split; [assumption|]. split; [assumption|]. split; [assumption|].
+      intros j Hj. rewrite (Hob j Hj). unfold a2. simpl. rewrite list_lookup_insert_ne by congruence. reflexivity.
+    - simpl in Hpl. destruct Hpl.
+    - subst r. exists n3. split; [apply R0|]. split; [assumption|]. split; [assumption|]. split; [eauto|]. auto. }
+  destruct Hfin as (n4 & Hr4 & Hg4 & Hd4 & Hc4 & Ho4).
+  exists n4. split.
+  { eapply reachable_trans; [|exact Hr4]. eapply reachable_trans; [|exact Hr3].
+    eapply reachable_trans; [apply (rn_reach _ _ _ Hran1)|apply (rn_reach _ _ _ Hran2)]. }
+  split; [assumption|]. split; [assumption|].
+  split; [apply (pipeline_no_panic N fill_ok write_ok cap reqs); exact (proj1 Hg4)|].
+  intros j J0 J1 J2 J3.
+  rewrite (Ho4 j J3), (Ho3 j J2), (rn_others _ _ _ Hran2 j J1), (rn_others _ _ _ Hran1 j J0). reflexivity.
+Qed.
+
+
 End cancel.
